@@ -3,16 +3,17 @@
 Require Import Cirbo.Model.Base Cirbo.Model.Gate Cirbo.Model.Den Cirbo.Model.Circuit Cirbo.Model.Traverse
         Cirbo.Model.Connect Cirbo.Model.History Cirbo.Model.WF.
 Require Import Cirbo.Proofs.DictFacts Cirbo.Proofs.WFBase Cirbo.Proofs.WFSimple Cirbo.Proofs.WFEmplace
-        Cirbo.Proofs.WFRemove Cirbo.Proofs.WFReplaceInputs.
+        Cirbo.Proofs.WFRemove Cirbo.Proofs.WFReplaceInputs Cirbo.Proofs.WFRename Cirbo.Proofs.WFRename2
+        Cirbo.Proofs.WFCopy Cirbo.Proofs.WFBench.
 
 (* the invariant carried along a history: WF plus "INPUT gates have no operands" *)
 Definition Inv (c : circuit) : Prop := WF c /\ inputs_nullary c.
 
-(* comparison-like binary gate types: the bench converters read operands 0 and 1 only *)
-Definition binary_type (t : gtype) : bool :=
-  match t with LT | LEQ | GT | GEQ | LIFF | RIFF | LNOT | RNOT => true | _ => false end.
+(* comparison-like binary gate types: the bench converters read operands 0 and 1 only and
+   silently ignore further operands (Proofs/WFBench.v: binary_type', binary_le') *)
+Definition binary_type := binary_type'.
 Definition binary_ok (c : circuit) : Prop :=
-  forall l g, dget (gates c) l = Some g -> binary_type (gtyp g) = true -> length (gops g) = 2.
+  forall l g, dget (gates c) l = Some g -> binary_type (gtyp g) = true -> length (gops g) <= 2.
 
 (* what "valid arguments" means, per operation (may depend on the current state) *)
 Definition op_ok (c : circuit) (o : op) : Prop :=
@@ -34,7 +35,8 @@ Definition covered (o : op) : bool :=
   | OpEmplace _ _ _ | OpAddInputs _ | OpRemoveGate _
   | OpMarkOutput _ | OpSetOutputs _ | OpSetInputs _ | OpOrderInputs _ | OpOrderOutputs _
   | OpReplaceInputs _ _ | OpMakeBlock _ _ _ _ | OpMakeBlockFromSlice _ _ _
-  | OpDeleteBlock _ | OpRemoveBlock _ => true
+  | OpDeleteBlock _ | OpRemoveBlock _ | OpRename _ _ | OpCopy | OpBlockIntoCircuit _
+  | OpIntoBench _ => true
   | _ => false
   end.
 
@@ -68,6 +70,7 @@ Proof.
   - split; [eapply emplace_gate_wf|eapply emplace_gate_nullary]; eassumption.
   - split; [eapply add_inputs_wf|eapply add_inputs_nullary]; eassumption.
   - split; [eapply remove_gate_wf|eapply remove_gate_nullary]; eassumption.
+  - split; [eapply rename_gate_wf|eapply rename_gate_nullary]; eassumption.
   - split; [eapply mark_as_output_wf; eassumption|].
     eapply nullary_same_gates; [|eassumption]. eapply (simple_gates c (OpMarkOutput l)); [exact I|exact H].
   - split; [eapply set_outputs_wf; eassumption|].
@@ -88,6 +91,9 @@ Proof.
   - split; [eapply delete_block_wf; eassumption|].
     eapply nullary_same_gates; [|eassumption]. eapply (simple_gates c (OpDeleteBlock name)); [exact I|exact H].
   - split; [eapply remove_block_wf|eapply remove_block_nullary]; eassumption.
+  - eapply into_bench_inv_le; eassumption.
+  - eapply copy_circuit_wf; eassumption.
+  - binv H b Hb. eapply block_into_circuit_wf; eassumption.
 Qed.
 
 (* side conditions along a history: each call's arguments are valid in the state it is applied to *)
